@@ -4,9 +4,9 @@ from ._generic import make, STD_TRUST
 globals().update(
     make(
         pid="C16",
-        props=["JaqalProofs/Props/C16.lean", "JaqalProofs/Props/C16ParseBuild.lean", "JaqalProofs/Props/C16Builder.lean"],
-        targets=["JaqalProofs.Props.C16", "JaqalProofs.Props.C16ParseBuild", "JaqalProofs.Props.C16Builder"],
-        diffs=[("harness.agents.c16_diff", 150, 700), ("harness.agents.c16_edge", 150, 700), ("harness.agents.c16_combo", 120, 500)],
+        props=["JaqalProofs/Props/C16.lean", "JaqalProofs/Props/C16ParseBuild.lean", "JaqalProofs/Props/C16Builder.lean", "JaqalProofs/Props/C16Outputs.lean"],
+        targets=["JaqalProofs.Props.C16", "JaqalProofs.Props.C16ParseBuild", "JaqalProofs.Props.C16Builder", "JaqalProofs.Props.C16Outputs"],
+        diffs=[("harness.agents.c16_diff", 150, 700), ("harness.agents.c16_edge", 150, 700), ("harness.agents.c16_combo", 120, 500), ("harness.agents.outlist_diff", 1000, 8000, {"one_readout_per_visit_in_order", "too_few_outputs_rejected"})],
         trusted=[
             STD_TRUST,
             "composition of all component models in JaqalModel/Model/RunModel.lean: `runModel cfg ov txt` = parse_jaqal_string followed by run_jaqal_circuit up to (not including) floating-point arithmetic: parse → build → expand_subcircuits → fill_in_let → expand_macros → discovery + disjointness → register / native-gate checks → per-trace serialisation → walk",
